@@ -66,7 +66,7 @@ func (m *ModelClient) Run(fileBacked bool, ops []Op) ([]string, error) {
 
 var modelKinds = map[string]bool{"coll": true, "rmcoll": true, "names": true, "set": true, "del": true, "get": true, "geti": true,
 	"exist": true, "min": true, "max": true, "tot": true, "flush": true, "evict": true, "reopen": true, "revert": true,
-	"asc": true, "ascx": true, "itasc": true, "desc": true, "descx": true, "itdesc": true, "len": true}
+	"asc": true, "ascx": true, "itasc": true, "desc": true, "descx": true, "itdesc": true, "len": true, "nasc": true, "ndesc": true, "nit": true, "junk": true}
 
 // canonicalShape reports whether C13 makes the tree shape a function of
 // the contents for this history: pairwise distinct priorities and no key
@@ -110,7 +110,7 @@ func ModelMismatch(fileBacked bool, ops []Op, obs []string) (*Mismatch, int) {
 	for i := range ops {
 		got, exp := obs[i], mo[i]
 		switch ops[i].K {
-		case "asc", "desc", "itasc", "itdesc":
+		case "asc", "desc", "itasc", "itdesc", "nasc", "ndesc", "nit":
 			exp = stripDepth(exp)
 		case "ascx", "descx":
 			if !canon {
